@@ -556,7 +556,9 @@ Definition eval_value (vs : vartab) (e : expr) : res var :=
                 | None => Raise
                 end
   end.
-Definition impl_eval (f : file) (key : name) (e : expr) (copyall : bool) : res file :=
+(* the file the value is put into and the variable that is stored: the value keeps the dimension tuple it inherits from the
+   first variable operand (or from the assigned key if it exists); there is NO check of its shape against those dimensions *)
+Definition eval_parts (f : file) (key : name) (e : expr) (copyall : bool) : res (file * var) :=
   (* the first symbol that names a variable: the assigned key itself if it exists, else the operand *)
   let first := if has key (fvars f) then key else expr_first e in
   match lookup first (fvars f) with
@@ -565,13 +567,21 @@ Definition impl_eval (f : file) (key : name) (e : expr) (copyall : bool) : res f
       do base <- (if copyall then impl_copy f
                   else do g <- impl_subset f [first]; Ok (File (fdims g) (adel first (fvars g)) (fattrs g) (fcoords g)));
       do val <- eval_value (fvars f) e;
-      let vs0 := adel key (fvars base) in
       (* a 0-d result is a numpy scalar, a result without dimension names is "likely a problem":
          both go through createVariable(key, dimt, values=val, **propd) with the FIRST variable's metadata *)
       let stored := if Nat.eqb (length (vdims val)) 0 || Nat.eqb (length (vshape val)) 0
                     then Var (vdims fv) (vshape val) (aset a_expr true (vattrs fv))
                     else val in                                                         (* outf.variables[key] = val *)
-      Ok (File (fdims base) (aset key stored vs0) (fattrs base) (fcoords base))
+      Ok (base, stored)
+  end.
+Definition impl_eval (f : file) (key : name) (e : expr) (copyall : bool) : res file :=
+  do p <- eval_parts f key e copyall;
+  Ok (File (fdims (fst p)) (aset key (snd p) (adel key (fvars (fst p)))) (fattrs (fst p)) (fcoords (fst p))).
+(* the value's shape equals the lengths of the dimensions it inherits *)
+Definition eval_fits (f : file) (key : name) (e : expr) (copyall : bool) : bool :=
+  match eval_parts f key e copyall with
+  | Ok p => list_eqb (option_eqb Nat.eqb) (map (dimlen (fdims (fst p))) (vdims (snd p))) (map Some (vshape (snd p)))
+  | Raise => true
   end.
 
 (* -- binary operators (pncbo): values= bypasses the dimension table; the repaired code refuses a result whose shape
@@ -622,23 +632,12 @@ Fixpoint trace (f : file) (ops : list op) : list (res file) :=
   | o :: t => match step f o with Ok f' => Ok f' :: trace f' t | Raise => [Raise] end
   end.
 
-(* ---- the sub-domain on which well-formedness is PROVED (complement = known-defect regions) ---- *)
-(* eval: the value has the shape of the variable whose metadata it inherits *)
-Definition safe_eval (f : file) (key : name) (e : expr) : bool :=
-  match e with
-  | EScale a => match lookup a (fvars f) with
-                | Some v => negb (Nat.eqb (length (vdims v)) 0) || negb (has key (fvars f)) || Nat.eqb key a
-                | None => true end
-  | EBin a b => match lookup a (fvars f), lookup b (fvars f) with
-                | Some va, Some vb => option_eqb (list_eqb Nat.eqb) (bcast (vshape va) (vshape vb)) (Some (vshape va))
-                                      && negb (Nat.eqb (length (vdims va)) 0)
-                | _, _ => true end
-  | EIndex _ => false
-  end.
-(* region number of an operation in a state: 0 = proved domain *)
+(* ---- the sub-domain on which well-formedness is PROVED (complement = known-defect region 1) ---- *)
+(* region number of an operation in a state: 0 = proved domain; 1 = eval whose value does not have the shape of the
+   dimensions it inherits (exactly the evals that leave an ill-formed file: C01_eval_wf_iff) *)
 Definition op_region (f : file) (o : op) : nat :=
   match o with
-  | OEval k e _ => if safe_eval f k e then 0 else 1
+  | OEval k e ca => if eval_fits f k e ca then 0 else 1
   | _ => 0
   end.
 Definition safe_op (f : file) (o : op) : bool := Nat.eqb (op_region f o) 0.
